@@ -159,7 +159,7 @@ class Polygon(Shape2D):
         if normal is None:
             self._normal = computed_normal
         else:
-            norm_normal = np.asarray(normal, dtype=np.float64)
+            norm_normal = np.array(normal, dtype=np.float64)
             norm_normal /= np.linalg.norm(normal)
 
             if not np.isclose(np.abs(np.dot(computed_normal, norm_normal)), 1):
